@@ -496,7 +496,7 @@ Proof.
     { destruct (has_filename sa); [reflexivity|]. rewrite is_absolute_some. cbn [bind].
       destruct (has_root sa); reflexivity. }
     rewrite Hdec. cbn [bind]. clear Hdec.
-    set (hf := has_filename sa).
+    set (hf := has_filename sa). clearbody hf.
     set (sp := if hf then [sepc] else []).
     assert (Hsp : (if hf then 1 else 0) = Z.of_nat (length sp)) by (subst sp; destruct hf; reflexivity).
     rewrite Hsp. unfold slen.
@@ -514,26 +514,29 @@ Proof.
         eauto.
       - exists b1. rewrite app_nil_r. auto. }
     destruct H2 as [b2 [H2 [F2 [S2 K2]]]]. rewrite H2. cbn [bind].
+    assert (SB0 : b_size B0 = Z.of_nat (length sa + length sp + length sb + 1)) by reflexivity.
+    assert (KB0 : b_kind B0 = true) by reflexivity.
+    clear H1 H2 Hsp HA1 HA2 HA3 HB1 HB3 Hblen. clearbody sp B0.
     destruct (Z.of_nat (length sb) >? 0) eqn:Eg.
     + destruct b as [sb'|]; [|discriminate]. cbn [opt_str] in sb. subst sb.
       replace (Z.of_nat (length sb') - 0) with (Z.of_nat (length sb')) by lia.
       change 0 with (Z.of_nat 0) at 1. rewrite rd_range_nat by (simpl; lia). cbn [bind skipn]. rewrite firstn_all.
       step_wr b2 F2 b3 H3 F3 S3 K3;
-        [rewrite app_length; lia|rewrite S2, S1; cbn; rewrite app_length; lia|].
+        [rewrite app_length; lia|rewrite S2, S1, SB0, app_length; cbn [length]; lia|].
       step_wr b3 F3 b4 H4 F4 S4 K4;
-        [rewrite !app_length; lia|rewrite S3, S2, S1; cbn; rewrite !app_length; lia|].
+        [rewrite !app_length; lia|rewrite S3, S2, S1, SB0, !app_length; cbn [length]; lia|].
       eexists. split; [reflexivity|].
       rewrite <- !app_assoc in F4.
-      split; [|rewrite S4, S3, S2, S1; cbn; rewrite !app_length; lia].
+      split; [|rewrite S4, S3, S2, S1, SB0, !app_length; cbn [length]; lia].
       rewrite <- !app_assoc.
-      apply filled_full; [exact F4|]. rewrite S4, S3, S2, S1, !app_length. cbn. lia.
+      apply filled_full; [exact F4|]. rewrite S4, S3, S2, S1, SB0, !app_length. cbn [length]. lia.
     + assert (Esb : sb = []) by (destruct sb; [reflexivity|simpl in Eg; lia]).
       assert (Lsb : length sb = 0%nat) by (rewrite Esb; reflexivity).
       eexists. split; [reflexivity|]. rewrite Esb, !app_nil_r.
-      split; [|rewrite S2, S1; subst B0; cbn; rewrite !app_length; lia].
+      split; [|rewrite S2, S1, SB0, !app_length; cbn [length]; lia].
       apply (filled_calloc_rest b2 (sa ++ sp) 1 F2).
-      * rewrite K2, K1. reflexivity.
-      * rewrite S2, S1. subst B0. cbn. rewrite app_length. lia.
+      * rewrite K2, K1. exact KB0.
+      * rewrite S2, S1, SB0, app_length. cbn [length]. lia.
 Qed.
 
 (* ---------------------------------------------------------------- zix_path_preferred *)
